@@ -96,7 +96,10 @@ Definition allowed0 : list (string * list cls) :=
   ("disable_tf_exact_match_detection", boolc); ("fix_m_probability", boolc); ("fix_u_probability", boolc)].
 Definition cons0 : list constr :=
  [("tf_adjustment_column", CC VNone, "tf_adjustment_weight", [CC (VNum 1 1)]);
-  ("tf_adjustment_column", CC VNone, "tf_minimum_u_value", [CC (VNum 0 1)])].
+  ("tf_adjustment_column", CC VNone, "tf_minimum_u_value", [CC (VNum 0 1)]);
+  (* a null level carries no m / u (as_dict raises otherwise) *)
+  ("is_null_level", CC (VBool true), "m_probability", [CC VNone]);
+  ("is_null_level", CC (VBool true), "u_probability", [CC VNone])].
 Definition trained (p : string) :=
   EIf (EField "is_null_level") TT
       (EIf (EEq (EField p) NOBS) (EConst (VBool false)) (EIf (EIsNone (EField p)) (EConst (VBool false)) TT)).
@@ -147,7 +150,7 @@ Example C09_pinned_level_table_rejected :
   table_ok K0 allowed0 cons0 (level_table false) level_loader hints0 = false /\
   map fst (pipeline_cex K0 allowed0 cons0 [{| s_rules := level_table false; s_loader := level_loader |}]
                         (id_targets level_loader hints0))
-  = ["tf_adjustment_weight"; "m_probability"; "m_probability"; "u_probability"; "u_probability"].
+  = ["tf_adjustment_weight"; "m_probability"; "u_probability"].
 Proof. vm_compute. split; reflexivity. Qed.
 
 (* C09_weight0_refuted: a well-formed level that the pinned serialiser does not give back:
@@ -171,6 +174,34 @@ Example C09_example_roundtrip :
   wfb K0 allowed0 cons0 level_w0 = true /\ normalised level_loader level_w0 = true /\
   run_stage {| s_rules := level_table true; s_loader := level_loader |} level_w0 [] = Some level_w0.
 Proof. vm_compute. repeat split; reflexivity. Qed.
+
+(* A serialiser that can only raise is rejected (no-certain-raise conjunct of the checker): the
+   theorems are about runs that return, and the checker refuses tables for which, for some
+   allowed class of inputs, no run can return. *)
+Example C09_raising_serialiser_rejected :
+  table_ok K0 allowed0 cons0
+    [{| r_key := "sql_condition"; r_guard := TT; r_val := ERaise |}]
+    (plain_loader [("sql_condition", VNone)]) [] = false.
+Proof. vm_compute. reflexivity. Qed.
+
+(* The never-observed marker is NOT preserved: a level whose stored m is the marker is written
+   without m (its _m_is_trained test is false) and reloads with m = None, i.e. it would score with
+   the default m instead of 1e-6.  The marker is therefore outside `wf` (not among the allowed
+   classes of m / u), and the check establishes on every trained model it generates that the marker
+   never reaches a level of the linker's Settings (it lives in the EM session's working copy and in
+   the _trained_* history only; such a level holds m = None, which does round-trip). *)
+Definition level_nobs : record :=
+ [("sql_condition", VStr "a_l = a_r"); ("label_for_charts", VStr "exact"); ("is_null_level", VBool false);
+  ("tf_adjustment_column", VNone); ("tf_adjustment_weight", VNum 1 1); ("tf_minimum_u_value", VNum 0 1);
+  ("m_probability", NOBS); ("u_probability", VNum 1 4); ("disable_tf_exact_match_detection", VBool false);
+  ("fix_m_probability", VBool false); ("fix_u_probability", VBool false)].
+Theorem C09_not_observed_marker_refuted :
+  wfb K0 allowed0 cons0 level_nobs = false /\
+  exists r, run_stage {| s_rules := level_table true; s_loader := level_loader |} level_nobs [] = Some r /\
+            get r "m_probability" = VNone /\ get level_nobs "m_probability" = NOBS /\
+            eval (prob "m_probability" "default_m") level_nobs [] = Some (VNum 1 1000000).
+Proof. split; [vm_compute; reflexivity|]. eexists. vm_compute. repeat split; reflexivity. Qed.
+Print Assumptions C09_not_observed_marker_refuted.
 
 (* C09_description_refuted: reload goes through CustomComparison built from the saved dict, whose
    create_description returned the class name *)
